@@ -109,6 +109,12 @@ def dict_to_stix2(stix_dict, allow_custom=False, interoperability=False, version
         # which is not defined by the specification.
         raise ExtraPropertiesError(obj_class, ['custom_properties'])
 
+    if '_valid_refs' in stix_dict:
+        # '_valid_refs' is how a container tells a STIX 2.0 observable which
+        # object references are in scope (and '*' switches the check off);
+        # parsed content has no say in that.
+        raise ExtraPropertiesError(obj_class, ['_valid_refs'])
+
     return obj_class(allow_custom=allow_custom, interoperability=interoperability, **stix_dict)
 
 
